@@ -5,7 +5,8 @@
    get K Y idx = entry of the TT-tensor;  tget K A idx = entry of a dense array;  tfull K Y = dense array of Y. *)
 From Coq Require Import List Arith Lia PeanoNat ZArith Bool Reals QArith Qcanon.
 From TV Require Import Num.Ops Lin.Tab Lin.BigSum Lin.Mat TT.Chain Model.Func Model.FuncFull
-  Proofs.FuncP Proofs.FuncFullP Proofs.FuncTrigP Proofs.FuncExactP Proofs.FuncWeightsP Proofs.FuncInt1P Proofs.FuncSpanP Proofs.FuncDiffP Proofs.FuncGenExP.
+  Proofs.FuncP Proofs.FuncFullP Proofs.FuncTrigP Proofs.FuncExactP Proofs.FuncWeightsP Proofs.FuncInt1P Proofs.FuncIntDP Proofs.FuncSpanP Proofs.FuncDiffP Proofs.FuncDiff1P
+  Proofs.FuncGenExP Proofs.FuncGenTTP.
 Import ListNotations.
 Local Open Scope nat_scope.
 
@@ -90,6 +91,21 @@ Proof.
   intros T K lstsq Hl Y Hs Cs HF L. pose proof (general_from_exact K lstsq Hl Y Hs Cs O HF L) as H.
   split; [exact H|]. intros idx Hi. now apply get_ceq.
 Qed.
+(* whole TT-tensor, custom basis: Cs = coefficient TT-tensor of ANY function in the span, Hs = basis matrices (values of
+   the basis functions at the sample points, full column rank), Y = its samples.  Then Y IS the sampled function, the fit
+   returns Cs, and func_get with the user's basis functions (ts = their values at the point) returns the function. *)
+Theorem C12_int_general_tt_exact : forall T (K : ops T), rng K -> forall lstsq, (forall k H M, lstsq_ok K lstsq k H M) ->
+  forall Y Hs Cs, chain 1 Cs 1 ->
+  Forall2 (fun HG C => in_span K (fst HG) (snd HG) C /\ full_col_rank K (fst HG)) (combine Hs Y) Cs ->
+  length Hs = length Y ->
+  let A := func_int_general K lstsq Y Hs in
+  (forall idx, inb (shape Y) idx ->
+     get K Y idx = msum K (shape Cs) (fun m => omul K (mprod K (map snd (Hms K Hs)) idx m) (get K Cs m))) /\
+  chain 1 A 1 /\ shape A = shape Cs /\ (forall m, inb (shape Cs) m -> get K A m = get K Cs m) /\
+  (forall tol x a b z ts, length ts = length Cs ->
+     func_get1_rows K tol x A a b z false ts = msum K (shape Cs) (fun m => omul K (bprod K ts m) (get K Cs m))).
+Proof. exact (@int_general_tt_exact). Qed.
+
 (* non-vacuity: identity basis matrix over any ring, and a concrete instance over Qc *)
 Theorem C12_general_hyp_sat : forall T (K : ops T), rng K -> forall k G,
   lstsq_ok K ls_id k (mid K (cn G)) (gmat K G) /\ in_span K (mid K (cn G)) G G /\ full_col_rank K (mid K (cn G)).
@@ -220,16 +236,29 @@ Theorem C12_sum_full_accepts_symmetric : forall tol16 ns A b, (0 <= tol16)%R -> 
   func_sum_full OR tol16 ns A (map Ropp b) b =
   Ok (omul OR (vol OR (map Ropp b) b) (msum OR ns (fun m => omul OR (wsprod OR Cheb m) (tget OR A m)))).
 Proof. exact sum_full_accepts_symmetric. Qed.
-(* PARTIAL (one variable only): func_sum (any box a < b) and func_sum_full (symmetric box) return the exact integral of
-   the polynomial func_get / func_get_full evaluate: F(b) - F(a) for an antiderivative F on R.  Missing: d > 1 (the
-   iterated integral; the algebraic product formula is C12_func_sum_spec, the weights are C12_cheb_weights). *)
-Theorem C12_sum_exact_1d_partial : forall G a b, chain 1 [G] 1 -> (a < b)%R -> exists F : R -> R,
+(* integration, ANY d.  The integral is the ITERATED one:
+     is_int f a b v  :=  exists F, (forall x, F'(x) = f(x)) /\ F(b) - F(a) = v          (one variable, Newton integral)
+     is_iint a b f v :=  v = int_{a1}^{b1} ( int_{a2}^{b2} ( ... f(x1, x2, ...) ... ) dx2 ) dx1, by recursion over the
+                         variables: exists g, (forall x1, is_iint a' b' (f(x1, .)) (g x1)) /\ is_int g a1 b1 v
+   (single-valued: C12_iint_unique).  func_sum (any box a_k < b_k) and func_sum_full (symmetric boxes) return the
+   iterated integral over the box of the polynomial with coefficient tensor A, i.e. of the function func_get /
+   func_get_full evaluate in the box (C12_interp_exact). *)
+Theorem C12_sum_exact : forall A a b, chain 1 A 1 -> length a = length A -> length b = length A -> Forall2 Rlt a b ->
+  is_iint a b (cpoly (shape A) (get OR A) a b) (func_sum OR A a b Cheb).
+Proof. exact sum_exact. Qed.
+Theorem C12_sum_full_exact : forall tol16 ns A b, (0 <= tol16)%R -> length b = length ns -> Forall (fun bk => (0 < bk)%R) b ->
+  exists v, func_sum_full OR tol16 ns A (map Ropp b) b = Ok v /\
+            is_iint (map Ropp b) b (cpoly ns (tget OR A) (map Ropp b) b) v.
+Proof. exact sum_full_exact. Qed.
+Theorem C12_iint_cpoly : forall ns a b c, Forall2 Rlt a b -> length a = length ns ->
+  is_iint a b (cpoly ns c a b) (vol OR a b * msum OR ns (fun m => wsprod OR Cheb m * c m))%R.
+Proof. exact iint_cpoly. Qed.
+Theorem C12_iint_unique : forall a b f v w, Forall2 Rle a b -> is_iint a b f v -> is_iint a b f w -> v = w.
+Proof. exact is_iint_unique. Qed.
+(* one variable, as a special case with the antiderivative exhibited *)
+Theorem C12_sum_exact_1d : forall G a b, chain 1 [G] 1 -> (a < b)%R -> exists F : R -> R,
   (forall x, derivable_pt_lim F x (cpoly [cn G] (get OR [G]) [a] [b] [x])) /\ (F b - F a)%R = func_sum OR [G] [a] [b] Cheb.
 Proof. exact sum_exact_1d. Qed.
-Theorem C12_sum_full_exact_1d_partial : forall tol16 n A h, (0 <= tol16)%R -> (0 < h)%R -> exists (v : R) (F : R -> R),
-  func_sum_full OR tol16 [n] A [(- h)%R] [h] = Ok v /\
-  (forall x, derivable_pt_lim F x (cpoly [n] (tget OR A) [(- h)%R] [h] [x])) /\ (F h - F (- h))%R = v.
-Proof. exact sum_full_exact_1d. Qed.
 
 (* ================================================================ Part III: func_diff_matrix *)
 (* every box, every n, m: the s-th returned matrix = s-th iterate of the box-independent recursion * (2/(b-a))^(s+1) *)
@@ -240,10 +269,29 @@ Theorem C12_diff_matrix_scaling : forall T (K : ops T) ss a b n m s dflt, s < m 
 Proof. intros. unfold func_diff_matrix. now apply nth_diff_loop. Qed.
 (* PARTIAL (only n in {2,3,4}, derivative orders 1..3; exact rational nodes 1, 1/2, 0, -1/2, -1; Qc arithmetic):
    for EVERY box and EVERY polynomial p(x) = sum_{q<n} c_q x^q, the (s+1)-th matrix applied to the values of p at the
-   nodes gives (2/(b-a))^(s+1) p^(s+1) at the nodes.  Missing: general n (validated numerically by the search). *)
+   nodes gives (2/(b-a))^(s+1) p^(s+1) at the nodes.  Missing: orders 2, 3, ... for general n (order 1 is C12_diff1_exact, every
+   n; higher orders for n > 4 are validated numerically by the search). *)
 Theorem C12_diff_matrix_exact_partial : forall n s m a b (c : nat -> Qc) i, n = 2 \/ n = 3 \/ n = 4 -> s < 3 -> s < m -> i < n ->
   bsum OQc n (fun j => omul OQc
       (mget OQc (nth s (func_diff_matrix OQc ss_Qc a b n m) (mkmat 0 0 (fun _ _ => o0 OQc))) i j)
       (pval n c (xnode n j))) =
   omul OQc (fpow OQc (odiv OQc (ftwo OQc) (osub OQc b a)) (s + 1)) (pder n (s + 1) c (xnode n i)).
 Proof. exact diff_exact_small. Qed.
+
+(* FULL for the FIRST derivative, at the reals: every n = N+1 >= 2, every box, every m >= 1, every polynomial
+   p(x) = sum_{q<n} c_q x^q (pvalR; pderR is its derivative, C12_pval_deriv): the first matrix func_diff_matrix returns,
+   applied to the values of p at the nodes x_j = cos(pi j/N), gives 2/(b-a) * p'(x_r) for every node.
+   (What the code computes: D[r,c] = (c_r/c_c)(-1)^(r+c)/(x_r - x_c) off the diagonal with the flipped, numerically stable
+   node differences, diagonal = minus the row sum; C12_diff1_entries.)  Orders 2, 3, ...: the code uses the recursion
+   D_(i+1)[r,c] = (i+1) Z[r,c] (C[r,c] D_i[r,r] - D_i[r,c]), diagonal = minus row sums; its exactness is proved only for
+   n in {2,3,4} (C12_diff_matrix_exact_partial). *)
+Theorem C12_diff1_exact : forall N m a b (c : nat -> R) r, 1 <= N -> 1 <= m -> r <= N ->
+  bsum OR (S N) (fun j => (mget OR (nth 0 (func_diff_matrix OR ssR a b (S N) m) (mkmat 0 0 (fun _ _ => 0%R))) r j
+                          * pvalR (S N) c (xN N j))%R) =
+  (2 / (b - a) * pderR (S N) c (xN N r))%R.
+Proof. exact diff1_exact. Qed.
+Theorem C12_diff1_entries : forall N r c, 1 <= N -> r <= N -> c <= N ->
+  mget OR (raw1 N) r c = if Nat.eqb r c then (- bsum OR (S N) (fun c' => d1 N r c'))%R else d1 N r c.
+Proof. exact raw1_entry. Qed.
+Theorem C12_pval_deriv : forall c x n, derivable_pt_lim (pvalR n c) x (pderR n c x).
+Proof. exact pvalR_deriv. Qed.
